@@ -1058,6 +1058,9 @@ class bcrypt_sha256(_wrapped_bcrypt):
 
     @classmethod
     def _norm_version(cls, version):
+        if isinstance(version, str) and version.isascii() and version.isdigit():
+            # e.g. read back from an INI file by CryptContext
+            version = int(version)
         if version not in cls._supported_versions:
             raise ValueError(f"{cls.name}: unknown or unsupported version: {version!r}")
         return version
